@@ -13,7 +13,7 @@ import (
 // one deliberately wrong rule (oracle-sensitivity self-test, S6).
 
 const (
-	mutNone = iota
+	mutNone              = iota
 	mutFromEndCountFront // :from-end with :count removes/substitutes from the front
 	mutEndInclusive      // :end treated as inclusive
 	mutStableUnstable    // stable-sort reverses runs of equal keys
@@ -40,11 +40,11 @@ var mutNames = map[int]string{
 
 // want is what the statement demands of one call.
 type want struct {
-	show   string                 // exact rendering (lisp.Show) demanded, when check == nil and truthy == nil
-	truthy *bool                  // only the truth value is demanded
+	show   string                                // exact rendering (lisp.Show) demanded, when check == nil and truthy == nil
+	truthy *bool                                 // only the truth value is demanded
 	check  func(got string, dec *decoded) string // custom acceptance: "" = accepted, else the reason
-	orErr  bool                   // a Lisp error is acceptable as well (undocumented keyword)
-	desc   string                 // human description of what is demanded
+	orErr  bool                                  // a Lisp error is acceptable as well (undocumented keyword)
+	desc   string                                // human description of what is demanded
 }
 
 func exact(s string) want { return want{show: s, desc: s} }
